@@ -99,3 +99,41 @@ def insBySeq (x : Result) : List Result → List Result
 def sortBySeq (l : List Result) : List Result := l.foldr insBySeq []
 
 end Gzx.MultiSA
+
+/-! ## the result loop of `QRCodeMultiReader.DecodeMultiple` -/
+namespace Gzx.MultiSA
+open Gzx
+
+/-- what `DecodeMultiple` reads from a `common.DecoderResult` -/
+structure DecRes where
+  text : List Nat
+  raw : List Nat
+  segs : Option (List (List Nat))   -- GetByteSegments(): nil or a list
+  hasEC : Bool                      -- GetECLevel() != ""
+  sa : Option (Int × Int)           -- HasStructuredAppend(): sequence number, parity
+  deriving Repr, DecidableEq
+
+def kECLevel : Nat := 3
+def kParity : Nat := 10
+
+/-- `NewResult(text, rawBytes, points, QR_CODE)` followed by the `PutMetadata` calls of the loop body -/
+def resultOf (d : DecRes) (npoints : Nat) : Result :=
+  { text := d.text, raw := d.raw, npoints := npoints,
+    md := (match d.segs with | some s => [(kByteSegments, MetaVal.segs s)] | none => []) ++
+          (if d.hasEC then [(kECLevel, MetaVal.other "string")] else []) ++
+          (match d.sa with | some (seq, par) => [(kSequence, MetaVal.int seq), (kParity, MetaVal.int par)] | none => []) }
+
+/-- `for _, detectorResult := range detectorResults`: `none` = the decoder returned a ReaderException
+    (`continue`).  (A decoder error that is not a ReaderException would end the loop with that error;
+    `qr_decode_total`: the decoder only returns Format / Checksum exceptions, which are ReaderExceptions.) -/
+def collect : List (Option DecRes × Nat) → List Result
+  | [] => []
+  | (none, _) :: rest => collect rest
+  | (some d, n) :: rest => resultOf d n :: collect rest
+
+/-- `DecodeMultiple` after `DetectMulti`: collect, then `processStructuredAppend` if anything was decoded -/
+def decodeMultiple (sort : List Result → List Result) (drs : List (Option DecRes × Nat)) : Res (List Result) :=
+  let results := collect drs
+  if results.length ≠ 0 then process sort results else .ok results
+
+end Gzx.MultiSA
